@@ -16,7 +16,7 @@ RULE = ("bursts of 1..5 uniquely tagged messages routed back-to-back and across 
         "connections (TCP server ConnectionHandler with a FakeWriter whose drain() futures the explorer releases; TTY ConnectionHandler "
         "over the REAL aiofiles AsyncTextIOWrapper and a real thread pool whose file.write/file.flush calls are gated; the client's "
         "ConnectionHandler.send_message). EXHAUSTIVE depth-first enumeration of the scheduler's choice points: at each point the explorer "
-        "chooses which parked awaitable completes next, or that one connection never completes; each leaf is a fresh re-execution. Each "
+        "chooses which parked awaitable completes next, that one connection never completes, or (some scenarios) that the peer of one connection disconnects now; each leaf is a fresh re-execution. Each "
         "connection's output is split by an independent XML splitter and must be exactly the routed messages in routed order; with a "
         "stalled connection the router call and every other connection must still finish within a bounded number of loop rounds. "
         "Some scenarios carry a 200 KB message (longer than any write buffer) followed by further messages routed after each completion, also as a 150 KB setBLOBVector to connections that enabled BLOBs. "
@@ -135,11 +135,13 @@ def make_message(k, big=False, blob=False):
 class Scenario:
     """conns: list of 'tcp' | 'tty' | 'client'; groups: list of burst sizes; stalled: index or None."""
 
-    def __init__(self, conns, groups, stalled=None, script=None, big=(), blob=False):
+    def __init__(self, conns, groups, stalled=None, script=None, big=(), blob=False, hangup=None):
         self.conns, self.groups, self.stalled, self.script, self.big, self.blob = conns, groups, stalled, script, tuple(big), blob
+        self.hangup = hangup          # index of a connection whose peer disconnects at a point of the schedule the explorer chooses
 
     def key(self):
-        return (tuple(self.conns), tuple(self.groups), self.stalled, self.script) + ((self.big,) if self.big else ()) + (("blob",) if self.blob else ())
+        return ((tuple(self.conns), tuple(self.groups), self.stalled, self.script) + ((self.big,) if self.big else ())
+                + (("blob",) if self.blob else ()) + ((("hangup", self.hangup),) if self.hangup is not None else ()))
 
 
 async def execute(ctx, sc, prefix):
@@ -221,8 +223,12 @@ async def execute(ctx, sc, prefix):
             else:
                 quiet += 1
 
+    hung = [False]
+
     def options():
         opts = [(-1, "exec", item[0]) for item in manual.parked]
+        if sc.hangup is not None and not hung[0] and nmsg[0] > 0:
+            opts.append((sc.hangup, "hangup", 0))
         for i, c in enumerate(conns):
             if sc.stalled == i:
                 continue
@@ -240,6 +246,12 @@ async def execute(ctx, sc, prefix):
         if what == "exec":
             manual.complete(ident)
             ctx.count("default_executor_jobs_completed_by_the_explorer")
+            return
+        if what == "hangup":
+            # the peer of this connection has gone: its handler closes it (what handler_func does after EOF)
+            hung[0] = True
+            conns[i]["handler"].close()
+            ctx.count("peer_disconnects_inside_a_schedule")
             return
         c = conns[i]
         if what == "drain":
@@ -319,6 +331,8 @@ async def execute(ctx, sc, prefix):
                 return counts, (f"output-interleaved-or-torn:{c['kind']}", f"connection {i}: {e}", out[-300:])
             got = [view_xml(e) for e in els]
             want = [view_lib(m) for m in sent]
+            if sc.hangup == i and hung[0]:
+                continue                          # whatever the disconnected peer still got is not judged
             if sc.stalled == i:
                 # a stalled connection: what it did write must be a prefix of the routed sequence
                 if rest.strip() and c["kind"] != "tty":
@@ -385,7 +399,7 @@ def explore(ctx, sc, max_schedules=None):
         if bad:
             key, what, out = bad
             ctx.violate(key, f"{what} (scenario {sc.key()}, schedule {full})",
-                        {"conns": sc.conns, "groups": sc.groups, "stalled": sc.stalled, "script": sc.script, "big": list(sc.big), "blob": sc.blob, "schedule": full}, {"output_tail": out})
+                        {"conns": sc.conns, "groups": sc.groups, "stalled": sc.stalled, "script": sc.script, "big": list(sc.big), "blob": sc.blob, "hangup": sc.hangup, "schedule": full}, {"output_tail": out})
             return n
         # children: alternatives at positions >= len(prefix)
         for pos in range(len(counts) - 1, len(prefix) - 1, -1):
@@ -416,6 +430,9 @@ def scenarios(ctx):
     for kind in ("tcp", "client", "tty"):
         out += [Scenario([kind], [1, 1, 1], big=(0,), blob=True), Scenario([kind], [2, 1], big=(0,), blob=True), Scenario([kind], [1, 2], big=(1,), blob=True)]
     out += [Scenario(["tcp", "tcp"], [2, 1], big=(0,), blob=True)]
+    # one peer disconnects somewhere in the schedule while the others have parked and queued sends
+    out += [Scenario(["tcp", "tcp"], [2, 1], hangup=1), Scenario(["tcp", "tcp"], [1, 1, 1], hangup=0), Scenario(["tcp", "tcp", "tcp"], [2], hangup=2),
+            Scenario(["tcp", "tty"], [2, 1], hangup=0)]
     out += [Scenario(["tcp", "tcp"], [1, 1], big=(0,)), Scenario(["tcp", "tty"], [1, 1], big=(0,)), Scenario(["tcp", "tcp"], [1, 1], big=(0,), stalled=0)]
     for sc_ in ("rdrdr", "rdrydr", "rdyrdr", "ryrdrd", "rdrdyrd", "rdrdrd", "rydrdr"):
         out += [Scenario(["tcp"], [], script=sc_, big=(0,)), Scenario(["client"], [], script=sc_, big=(0,)), Scenario(["tcp"], [], script=sc_, big=(1,))]
@@ -464,7 +481,7 @@ def exhaustive(ctx):
 
 
 def replay(ctx, case):
-    sc = Scenario(case["conns"], case["groups"], case.get("stalled"), case.get("script"), case.get("big") or (), bool(case.get("blob")))
+    sc = Scenario(case["conns"], case["groups"], case.get("stalled"), case.get("script"), case.get("big") or (), bool(case.get("blob")), case.get("hangup"))
     counts, bad = asyncio.run(execute(ctx, sc, case["schedule"]))
     ctx.case_fast(("replay",))
     ctx.case_fast(("replay2",))
